@@ -53,11 +53,13 @@ type dtEval struct {
 	// innermost body that contains them, so that an unrelated literal (a deferred logger) does not shift the numbering
 	bodies [][2]token.Pos
 	// root: body of the function the row is about (for single-definition aliases of receiver fields)
-	root ast.Node
+	root      ast.Node
+	freshMemo map[[2]token.Pos]bool
+	defMemo   map[types.Object]ast.Expr
 }
 
 func newDtEval(e *Env) *dtEval {
-	return &dtEval{e: e, intTerms: map[string]types.Type{}, boolAtoms: map[string]bool{}, occSeen: map[string][]token.Pos{}}
+	return &dtEval{e: e, intTerms: map[string]types.Type{}, boolAtoms: map[string]bool{}, occSeen: map[string][]token.Pos{}, freshMemo: map[[2]token.Pos]bool{}, defMemo: map[types.Object]ast.Expr{}}
 }
 
 // canon renders an expression with the outermost receiver as "$" and substituted names expanded.
@@ -74,7 +76,17 @@ func (ev *dtEval) canon(x ast.Expr, fr *dtFrame) string {
 		}
 		// a local that is nothing but a name for a field of the receiver (single definition, `x := recv.f.g`) reads as that field
 		if ev.root != nil && o != nil && len(fr.subst) == 0 {
-			if d := an.SingleDef(fr.info, ev.root, o); d != nil && ev.isRecvField(d, fr) {
+			d, seen := ev.defMemo[o]
+			if !seen {
+				d = nil
+				if _, isVar := o.(*types.Var); isVar && o.Pos() >= ev.root.Pos() && o.Pos() < ev.root.End() {
+					if sd := an.SingleDef(fr.info, ev.root, o); sd != nil && ev.isRecvField(sd, fr) {
+						d = sd
+					}
+				}
+				ev.defMemo[o] = d
+			}
+			if d != nil && ev.aliasFresh(d, v, fr) {
 				return ev.canon(d, fr)
 			}
 		}
@@ -121,6 +133,34 @@ func (ev *dtEval) isRecvField(x ast.Expr, fr *dtFrame) bool {
 		}
 		return false
 	}
+}
+
+// aliasFresh: the alias is defined in the init clause of the very if / switch statement whose condition uses it
+// (`if x := recv.f; x != nil`), so it is read at the same instant the field would be. Anything looser is unsound here:
+// a local copy of a field is also how the code remembers an earlier value to compare the field with later (2PC's
+// `originalVersion := res.version`), possibly across a release of the mutex.
+func (ev *dtEval) aliasFresh(def ast.Expr, use *ast.Ident, fr *dtFrame) bool {
+	key := [2]token.Pos{def.Pos(), use.Pos()}
+	if v, ok := ev.freshMemo[key]; ok {
+		return v
+	}
+	res := false
+	ast.Inspect(ev.root, func(m ast.Node) bool {
+		var init ast.Stmt
+		var cond ast.Node
+		switch x := m.(type) {
+		case *ast.IfStmt:
+			init, cond = x.Init, x.Cond
+		case *ast.SwitchStmt:
+			init, cond = x.Init, x.Tag
+		}
+		if init != nil && cond != nil && init.Pos() <= def.Pos() && def.End() <= init.End() && cond.Pos() <= use.Pos() && use.End() <= cond.End() {
+			res = true
+		}
+		return true
+	})
+	ev.freshMemo[key] = res
+	return res
 }
 
 // atomName: with occurrence numbering, base names seen at several positions get #k (k = rank of the position).
